@@ -357,6 +357,13 @@ func (bm *booksModel) compare(hw *histWorld, opLine string, w *bWallet, ma model
 	if traceMode == "none" {
 		traceOk = true
 	}
+	if (implRes != modelRes || rs != ma.snap || !traceOk) && hw.b.tieBlind {
+		// not a disagreement: the model cannot know which of several equal-amount proofs with different fees the
+		// implementation's unobserved first selection took (the model-free monitors still judge the operation)
+		hw.c.Hist("model", "not comparable: tie between equal amounts in keysets with different fees")
+		bm.lose(hw, opLine, "tie between equal amounts in keysets with different fees")
+		return
+	}
 	if implRes != modelRes || rs != ma.snap || !traceOk {
 		errs := ""
 		if realErr != nil {
